@@ -12,7 +12,10 @@
   3  `avg_weight_scale`, `avg_weight_scale_point`, `values_weight_scale`   all weights times a common factor c ≠ 0
      (`…_point`: the five quantities the longitudinal / off-diagonal classes compute at one (T, V) point, any prefactors;
       `values_…`: their `value_isothermal` / `value_adiabatic`)
-  4  `interp_perm_equivariant`, `interp_perm_gamma_zero`   the per-(q,m) interpolation loop commutes with re-indexing (q,m)
+  4  `interp_perm_equivariant`, `interp_perm_equivariant_total`, `interp_perm_gamma_zero`
+                                             the per-(q,m) interpolation loop commutes with re-indexing (q,m); one presentation
+                                             returns iff the other does (`interp_perm_error_may_differ`: the exception itself
+                                             may be another one — the first failing cell in loop order differs)
   5  `lsq_row_perm`, `polyfit_row_perm`, `fit_modulus_row_perm`   least squares does not see the order of the rows
   6  `lsq_affine_abscissa`, `eulerian_reference_affine`, `fit_modulus_answers`, `fit_modulus_affine`, `static_row_perm`
                                              another reference volume V₀ = volumes[0]: abscissa changes affinely, fitted values do not
@@ -22,12 +25,16 @@
     * (5/6 are unconditional since the solver-totality proofs `Lemmas/SolveTotal.lean`, `Lemmas/GaussJordan.lean`: on ≥ deg+1
       distinct abscissae both executable solvers answer — C11 `lsq_total`, `polyfit_total` — so `fit_modulus_affine` and
       `static_row_perm` are equalities of the results, "one answers iff the other does" included.)
-    * 4 assumes both runs return; that an exception of one run is an exception of the other is not stated.
+    * (4 is total since `interp_perm_equivariant_total`: for a bijective re-indexing of the index rectangle one run returns iff
+      the other does, and then the entries correspond.  WHICH exception a failing run raises is not presentation-independent:
+      the loop aborts at the first failing cell in loop order, which is another cell after re-indexing — counter-example
+      `interp_perm_error_may_differ`.)
     * volume blocks of the phonon file in another order: goes through qha (grid refinement, its own ordering check) and
       scipy — no theorem; `harness/c13.py` (vol-rev / vol-shuffle: same numbers or an error) is the only evidence.
     * rounding: theorems are over ℝ / ordered fields; "unchanged to rounding" is measured by the harness (1e-8 of scale).
 -/
 import CijProofs.Lemmas.Presentation
+import CijProofs.Lemmas.InterpTotal
 import CijProofs.Lemmas.GaussJordan
 import CijProofs.Lemmas.Voigt
 import CijProofs.Properties.C11
@@ -170,6 +177,72 @@ theorem interp_perm_equivariant (m : Method) (order : ℕ) (I : Interpolant α) 
   rw [this, hcol] at hcol'
   cases hcol'
   exact ⟨e1'.trans e1.symm, e2'.trans e2.symm, e3'.trans e3.symm⟩
+
+/-- **interp_perm_equivariant_total.**  The same re-indexing hypotheses, with `σ` one-to-one on the `nq × np` index rectangle
+(hence — the rectangle is finite — a bijection of it: `rect_surj`): NO assumption that either run returns.
+* the re-presented run returns iff the original one does (equivalently: one raises iff the other raises);
+* whenever the original run returns `(F, G, D)` the re-presented one returns some `(F', G', D')`, and all three arrays are
+  re-indexed by `σ` at every grid volume.
+Nothing is claimed about WHICH exception a failing run raises: the loop aborts at the first failing cell in loop order and
+that is a different cell in the two presentations (`interp_perm_error_may_differ`).
+(What each hypothesis is for: "re-presented returns ⇒ original returns" needs `hrange`, `hΓ`, `hser` only; the converse needs
+every cell of the re-presented rectangle to BE the image of a cell — surjectivity, which on a finite rectangle is `hinj`;
+without it a cell outside the image of `σ` carries data the hypotheses say nothing about and may raise.) -/
+theorem interp_perm_equivariant_total (m : Method) (order : ℕ) (I : Interpolant α) (vols vArray : List α) (nq np : ℕ)
+    (freqs freqs' : List (List (List α))) (σ : ℕ × ℕ → ℕ × ℕ)
+    (hrange : ∀ j k, j < nq → k < np → (σ (j, k)).1 < nq ∧ (σ (j, k)).2 < np)
+    (hinj : ∀ j k j' k', j < nq → k < np → j' < nq → k' < np → σ (j, k) = σ (j', k') → (j, k) = (j', k'))
+    (hΓ : ∀ j k, j < nq → k < np → isΓac (σ (j, k)) = isΓac (j, k))
+    (hser : ∀ j k, j < nq → k < np → series freqs' (σ (j, k)).1 (σ (j, k)).2 = series freqs j k) :
+    ((∃ r, interpolateModes m order I vols vArray nq np freqs = .ok r) ↔
+        ∃ r', interpolateModes m order I vols vArray nq np freqs' = .ok r') ∧
+    ((∃ e, interpolateModes m order I vols vArray nq np freqs = .error e) ↔
+        ∃ e', interpolateModes m order I vols vArray nq np freqs' = .error e') ∧
+    ∀ F G D, interpolateModes m order I vols vArray nq np freqs = .ok (F, G, D) →
+      ∃ F' G' D', interpolateModes m order I vols vArray nq np freqs' = .ok (F', G', D') ∧
+        ∀ t j k, t < vArray.length → j < nq → k < np →
+          entry F' t (σ (j, k)).1 (σ (j, k)).2 = entry F t j k ∧ entry G' t (σ (j, k)).1 (σ (j, k)).2 = entry G t j k ∧
+            entry D' t (σ (j, k)).1 (σ (j, k)).2 = entry D t j k := by
+  -- the cell at σ(j,k) of the re-presented data IS the cell at (j,k) of the original data
+  have hcell : ∀ j k, j < nq → k < np →
+      cell m order I vols vArray (σ (j, k)).1 (σ (j, k)).2 (series freqs' (σ (j, k)).1 (σ (j, k)).2)
+        = cell m order I vols vArray j k (series freqs j k) := by
+    intro j k hj hk
+    have hflag := hΓ j k hj hk
+    simp only [isΓac] at hflag
+    rw [hser j k hj hk]
+    unfold cell
+    rw [hflag]
+  have hiff : (∃ r, interpolateModes m order I vols vArray nq np freqs = .ok r) ↔
+      ∃ r', interpolateModes m order I vols vArray nq np freqs' = .ok r' := by
+    rw [interpolateModes_isOk_iff, interpolateModes_isOk_iff]
+    constructor
+    · intro h j' hj' k' hk'
+      obtain ⟨j, k, hj, hk, e⟩ := rect_surj nq np σ hrange hinj j' k' hj' hk'
+      have := hcell j k hj hk
+      rw [e] at this
+      rw [this]
+      exact h j hj k hk
+    · intro h j hj k hk
+      obtain ⟨hj', hk'⟩ := hrange j k hj hk
+      rw [← hcell j k hj hk]
+      exact h _ hj' _ hk'
+  refine ⟨hiff, ?_, ?_⟩
+  · constructor
+    · rintro ⟨e, he⟩
+      rcases except_ok_or_error (interpolateModes m order I vols vArray nq np freqs') with hok | herr
+      · obtain ⟨r, hr⟩ := hiff.mpr hok
+        rw [he] at hr; cases hr
+      · exact herr
+    · rintro ⟨e, he⟩
+      rcases except_ok_or_error (interpolateModes m order I vols vArray nq np freqs) with hok | herr
+      · obtain ⟨r, hr⟩ := hiff.mp hok
+        rw [he] at hr; cases hr
+      · exact herr
+  · intro F G D h
+    obtain ⟨⟨F', G', D'⟩, h'⟩ := hiff.mp ⟨_, h⟩
+    exact ⟨F', G', D', h', fun t j k ht hj hk =>
+      interp_perm_equivariant m order I vols vArray nq np freqs freqs' F G D F' G' D' h h' σ hrange hΓ hser t j k ht hj hk⟩
 
 /-- the Γ-acoustic positions stay exactly zero in the re-presented run as well (C11 `gamma_acoustic_zero` applied to it) -/
 theorem interp_perm_gamma_zero (m : Method) (order : ℕ) (I : Interpolant α) (vols vArray : List α) (nq np : ℕ)
@@ -474,6 +547,33 @@ example :
     let σ : ℕ × ℕ → ℕ × ℕ := fun jk => if jk.1 = 1 then (2, jk.2) else if jk.1 = 2 then (1, 3 - jk.2) else jk
     ∀ j < 3, ∀ k < 4, ((σ (j, k)).1 < 3 ∧ (σ (j, k)).2 < 4) ∧ isΓac (σ (j, k)) = isΓac (j, k) := by
   decide
+
+set_option synthInstance.maxSize 2000 in
+/-- … and it is one-to-one on the rectangle — the extra hypothesis `hinj` of `interp_perm_equivariant_total` -/
+example :
+    let σ : ℕ × ℕ → ℕ × ℕ := fun jk => if jk.1 = 1 then (2, jk.2) else if jk.1 = 2 then (1, 3 - jk.2) else jk
+    ∀ j < 3, ∀ k < 4, ∀ j' < 3, ∀ k' < 4, σ (j, k) = σ (j', k') → (j, k) = (j', k') := by
+  decide
+
+set_option synthInstance.maxSize 4000 in
+open Cij.Interp in
+/-- **interp_perm_error_may_differ** — why `interp_perm_equivariant_total` says "raises iff raises" and not "raises the same
+exception".  One q-point (Γ), five modes, one volume; the library kernel rejects BOTH optical series, the series `[1]` with
+`ValueError` and the series `[2]` with another exception.  The loop aborts at the first failing cell in loop order, which is
+mode 3: it carries `[1]` in the original presentation and `[2]` after the two optical modes are listed in the other order —
+the two runs raise different exceptions although the hypotheses of the theorem hold (second and third conjunct). -/
+theorem interp_perm_error_may_differ :
+    letI : ExpLog ℚ := ⟨id, id⟩
+    let I : Interpolant ℚ := fun _ ys _ => if ys = [1] then .error .valueError else .error .linAlg
+    let σ : ℕ × ℕ → ℕ × ℕ := fun jk => if jk = (0, 3) then (0, 4) else if jk = (0, 4) then (0, 3) else jk
+    let freqs : List (List (List ℚ)) := [[[0, 0, 0, 1, 2]]]
+    let freqs' : List (List (List ℚ)) := [[[0, 0, 0, 2, 1]]]
+    (interpolateModes .spline 3 I [1] [1] 1 5 freqs = .error .valueError ∧
+      interpolateModes .spline 3 I [1] [1] 1 5 freqs' = .error .linAlg) ∧
+    (∀ j < 1, ∀ k < 5, ((σ (j, k)).1 < 1 ∧ (σ (j, k)).2 < 5) ∧ isΓac (σ (j, k)) = isΓac (j, k) ∧
+        series freqs' (σ (j, k)).1 (σ (j, k)).2 = series freqs j k) ∧
+    (∀ j < 1, ∀ k < 5, ∀ j' < 1, ∀ k' < 5, σ (j, k) = σ (j', k') → (j, k) = (j', k')) := by
+  decide +kernel
 
 /-- `lsq_row_perm`: an over-determined fit with non-zero residual, rows listed in another order — hypothesis and conclusion -/
 example : (([0, 1, 2, 3] : List ℚ).zip [0, 1, 0, 1]).Perm (([3, 0, 2, 1] : List ℚ).zip [1, 0, 0, 1]) := by decide
